@@ -583,16 +583,20 @@ func GetSNIHostsForServer(server *networking.Server) []string {
 // CheckDuplicates returns all of the hosts provided that are already known
 // If there were no duplicates, all hosts are added to the known hosts.
 func CheckDuplicates(hosts []string, bind string, knownHosts map[string]string) []string {
+	// A host is known per bind: the table is keyed by bind and host together. (Keyed by host alone, with the
+	// bind as value, a server on another bind made the table forget the first bind of the host, and a third
+	// server on the first bind was not recognized as a duplicate.)
+	key := func(h string) string { return bind + "/" + h }
 	var duplicates []string
 	for _, h := range hosts {
-		if existingBind, ok := knownHosts[h]; ok && bind == existingBind {
+		if _, ok := knownHosts[key(h)]; ok {
 			duplicates = append(duplicates, h)
 		}
 	}
 	// No duplicates found, so we can mark all of these hosts as known
 	if len(duplicates) == 0 {
 		for _, h := range hosts {
-			knownHosts[h] = bind
+			knownHosts[key(h)] = bind
 		}
 	}
 	return duplicates
